@@ -36,6 +36,19 @@ theorem Delivers.cast {X : Setup} {b b' : Nat} {T S S' : List Int} {C0 : List (N
     {s : VMState} (h : Delivers X b T S S' C0 rs s) (hb : b = b') (hr : rs = rs') : Delivers X b' T S S' C0 rs' s := by
   subst hb; subst hr; exact h
 
+theorem emitAlt_cons_cons (cfg : Cfg) (a fin : Nat) (tb : Tables) (c d : GoNode) (ds : List GoNode) :
+    emitAlt cfg a fin tb (c :: d :: ds) =
+      ([i1 opLazybranch ((a + 2 + size cfg c + 2 : Nat) : Int)] ++ (emitNode cfg (a + 2) tb c).1 ++ [i1 opGoto (fin : Int)] ++
+        (emitAlt cfg (a + 2 + size cfg c + 2) fin (emitNode cfg (a + 2) tb c).2 (d :: ds)).1,
+       (emitAlt cfg (a + 2 + size cfg c + 2) fin (emitNode cfg (a + 2) tb c).2 (d :: ds)).2) := by
+  conv => lhs; rw [emitAlt]
+  simp
+
+theorem sizeAlt_cons_cons (cfg : Cfg) (c d : GoNode) (ds : List GoNode) :
+    sizeAlt cfg (c :: d :: ds) = 2 + size cfg c + 2 + sizeAlt cfg (d :: ds) := by
+  conv => lhs; rw [sizeAlt]
+  simp
+
 /-- the highest tier the simulation lemma covers so far -/
 def maxTier : Nat := 1
 
@@ -91,7 +104,7 @@ theorem node_delivers : ∀ (n : GoNode) (a : Nat) (tb : Tables) (pat : Pat),
     boundsOk n = true → CodeAt W.X.p a (emitNode W.cfg a tb n).1 → TabExt (emitNode W.cfg a tb n).2 W.fin →
     ∀ (i : Nat) (T S : List Int) (C : List (Nat × Nat × Nat)) (s : VMState), St.wf W.X.se.n ⟨i, C⟩ → T ≠ [] →
       Entry W.X a i T S C s → Delivers W.X (a + size W.cfg n) T S S C (m W.X.se pat false ⟨i, C⟩) s
-  | .empty, a, tb, pat, _, hp, _, _, _, _, _, i, T S, C, s, _, _, he => by
+  | .empty, a, tb, pat, _, hp, _, _, _, _, _, i, T, S, C, s, _, _, he => by
     simp only [toPat, Option.some.injEq] at hp
     subst hp
     simp only [size, Nat.add_zero, m]
@@ -215,7 +228,7 @@ theorem node_delivers : ∀ (n : GoNode) (a : Nat) (tb : Tables) (pat : Pat),
         (by simpa [capsOk] using hcaps) (by simpa [boundsOk] using hbd) (by simpa [emitNode] using hcode)
         (by simpa [emitNode] using hext) i T S C s hwf hT he
   | .loop lzy lo hi c, a, tb, pat, ht, _, _, _, _, _, _, i, T, S, C, s, _, _, _ => by
-    simp [tier, maxTier] at ht
+    simp [tier, maxTier] at ht; omega
   | .capture g n c, a, tb, pat, ht, hp, hok, hcaps, hbd, hcode, hext, i, T, S, C, s, hwf, hT, he => by
     simp only [toPat] at hp
     split at hp
@@ -339,9 +352,9 @@ theorem alt_delivers : ∀ (cs : List GoNode) (a fin : Nat) (tb : Tables) (ps : 
           simp only [nestAlt, nest]
           exact node_delivers c a tb pc ht.1 hpc hok.1 hcaps.1 hbd.1 hcode hext i T S C s hwf hT he
         | cons d ds =>
-          have hem : (d :: ds).isEmpty = false := rfl
-          simp only [emitAlt, hem, Bool.false_eq_true, if_false] at hcode hext
-          simp only [sizeAlt, hem, Bool.false_eq_true, if_false] at hfin
+          rw [emitAlt_cons_cons] at hcode hext
+          rw [sizeAlt_cons_cons] at hfin
+          simp only at hcode hext
           rw [m_nestAlt_cons]
           -- the pieces of the code
           have hc1 : CodeAt W.X.p a [i1 opLazybranch ((a + 2 + size W.cfg c + 2 : Nat) : Int)] :=
@@ -371,7 +384,7 @@ theorem alt_delivers : ∀ (cs : List GoNode) (a fin : Nat) (tb : Tables) (ps : 
           obtain ⟨s1, hr1, he1⟩ := lazybranch_leads he hlb hf2
           refine Delivers.of_reach hr1 ?_
           have hfr : Framed W.X.p [(a : Int), (i : Int)] := lazybranch_frame hlb _
-          refine Delivers.append (F := [(a : Int), (i : Int)]) hfr (m W.X.se pc false ⟨i, C⟩) s1 ?_ ?_
+          refine Delivers.append (Sm := S) (C1 := C) (F := [(a : Int), (i : Int)]) hfr (m W.X.se pc false ⟨i, C⟩) s1 ?_ ?_
           · have hn := node_delivers c (a + 2) tb pc ht.1 hpc hok.1 hcaps.1 hbd.1 hc2 hext1 i
               ([(a : Int), (i : Int)] ++ T) S C s1 hwf (by simp) (by simpa using he1)
             have := Delivers.bind (X := W.X) (b := fin) (S' := S) (g := fun r => [r]) _ s1 hn ?_
